@@ -30,8 +30,10 @@ import (
 	"github.com/buildbarn/bb-storage/pkg/blobstore/buffer"
 	"github.com/buildbarn/bb-storage/pkg/blobstore/local"
 	"github.com/buildbarn/bb-storage/pkg/digest"
+	pb "github.com/buildbarn/bb-storage/pkg/proto/blobstore/local"
 	"google.golang.org/grpc/codes"
 	"google.golang.org/grpc/status"
+	"google.golang.org/protobuf/proto"
 
 	"verif/lib/asm"
 	"verif/lib/gen"
@@ -185,6 +187,40 @@ func body(w *run.Worker) {
 			panic(err)
 		}
 		gate = s.Gate
+		if cfg.Persistent {
+			// Durability form of the ordering clause: when a region is handed
+			// out, the state file that would survive a power loss right now
+			// (directory operations up to the last directory fsync, file data
+			// up to its last fsync) must not list a block at that region: the
+			// old block is still referenced by what a restart would load.
+			dd := sim.NewDurableDir(media.J, media.DirInit)
+			cross := 0
+			s.Alloc.Observer = func(id, off int64) {
+				b, ok := dd.File("state")
+				if cross < 4 && id%3 == 0 {
+					// cross-check the incremental tracker against the batch image
+					cross++
+					ref, rok := sim.DirImageAt(media.J, media.DirInit, media.J.Len(), sim.DirChoice{})["state"]
+					if rok != ok || string(ref) != string(b) {
+						w.Inconclusive("harness bug: incremental durable-directory tracker disagrees with DirImageAt")
+					}
+					w.Count("durable_tracker_crosschecks", 1)
+				}
+				if !ok {
+					return
+				}
+				var st pb.PersistentState
+				if proto.Unmarshal(b, &st) != nil {
+					return
+				}
+				w.Count("durable_state_checks_at_newblock", 1)
+				for _, bs := range st.Blocks {
+					if bs.BlockLocation.GetOffsetBytes() == off {
+						c.Violation("blockAllocator.NewBlock:region-reused-while-durable-state-lists-it", "NewBlock handed out the region at offset %d (incarnation %d), but the state file that survives a power loss at this moment still lists a block at that offset (write offset %d, %d epochs): the release was acted upon before the new state was durable", off, id, bs.WriteOffsetBytes, len(bs.EpochHashSeeds))
+					}
+				}
+			}
+		}
 		e := &env{park: park, c: c, w: w, s: s, cfg: cfg, r: r, ctx: ctx, popSeq: map[int64]int64{}, heldRefs: map[int64]int{}, sigParts: map[string]bool{}, inst: []string{"", "t", "t/u"}[r.Intn(3)]}
 		c.Desc("%v", cfg)
 		if c.Index == 0 {
